@@ -16,35 +16,8 @@ structure SegOut where
   qlen : Nat
   err : String
 
-/-- One outermost call into the runtime: run, then leave() / leaveAbrupt(). -/
-def runSeg (prog : Prog) (seg : Seg) : M String := do
-  match seg with
-  | .run b =>
-    match ← execBody prog 100000 b .undef with
-    | .abort => op .leaveAbrupt; return "int"
-    | .throw _ => if ← drain prog 100000 then return "int" else return "exc"
-    | .normal _ => if ← drain prog 100000 then return "int" else return "none"
-  | .go (.gnew k g) =>
-    let cap ← newCapM                                  -- Runtime.NewPromise, builtin_promise.go:628
-    setSlot k cap.promise
-    modify fun st => { st with gslots := setExt st.gslots g (some (cap.res, cap.rej)) none }
-    return "none"
-  | .go (.gres g v) =>
-    match (← get).gslots.getD g none with
-    | none => return "none"
-    | some (x, _) =>
-      let val ← evalV v .undef
-      match ← callFn prog 100000 x .undef [.v val] with     -- wrapPromiseReaction → runWrapped
-      | .abort => op .leaveAbrupt; return "int"
-      | _ => if ← drain prog 100000 then return "int" else return "none"
-  | .go (.grej g v) =>
-    match (← get).gslots.getD g none with
-    | none => return "none"
-    | some (_, y) =>
-      let val ← evalV v .undef
-      match ← callFn prog 100000 y .undef [.v val] with
-      | .abort => op .leaveAbrupt; return "int"
-      | _ => if ← drain prog 100000 then return "int" else return "none"
+/-- One outermost call into the runtime with the mechanism-level drain loop. -/
+def runSeg (prog : Prog) (seg : Seg) : M String := runSegWith drain prog seg
 
 def aliasOf (seen : List Nat) (p : Nat) : Option Nat :=
   let rec go : List Nat → Nat → Option Nat
@@ -77,7 +50,7 @@ def runProg (prog : Prog) : String :=
       let seen := firstSeen k.tracker
       let trs := (k.tracker.drop trBefore).map (trackStr seen)
       let line := "ev=" ++ ",".intercalate evs ++ ";tr=" ++ ",".intercalate trs ++ ";q=" ++
-        toString (k.cur.length + k.queue.length) ++ ";err=" ++ err
+        toString k.jobs.length ++ ";err=" ++ err
       go rest st' (acc ++ [line])
   let (st, lines) := go prog.segs {} []
   if st.oof then "OOF" else
